@@ -77,19 +77,19 @@ func runOne(k cg.Kind, data []byte) (res result) {
 			var v s2.Point
 			if err = v.Decode(rd); err == nil {
 				res.Term = cg.PointT(v)
-				use = func() { useRegion(v); reencode(func(w *bytes.Buffer) error { return v.Encode(w) }) }
+				use = func() { useRegion(v); reencode(k, func(w *bytes.Buffer) error { return v.Encode(w) }) }
 			}
 		case cg.KCap:
 			var v s2.Cap
 			if err = v.Decode(rd); err == nil {
 				res.Term = cg.CapT(v)
-				use = func() { useRegion(v); reencode(func(w *bytes.Buffer) error { return v.Encode(w) }) }
+				use = func() { useRegion(v); reencode(k, func(w *bytes.Buffer) error { return v.Encode(w) }) }
 			}
 		case cg.KRect:
 			var v s2.Rect
 			if err = v.Decode(rd); err == nil {
 				res.Term = cg.RectT(v)
-				use = func() { useRegion(v); reencode(func(w *bytes.Buffer) error { return v.Encode(w) }) }
+				use = func() { useRegion(v); reencode(k, func(w *bytes.Buffer) error { return v.Encode(w) }) }
 			}
 		case cg.KCellID:
 			var v s2.CellID
@@ -100,14 +100,14 @@ func runOne(k cg.Kind, data []byte) (res result) {
 					_ = v.IsValid()
 					at = "String"
 					_ = v.String()
-					reencode(func(w *bytes.Buffer) error { return v.Encode(w) })
+					reencode(k, func(w *bytes.Buffer) error { return v.Encode(w) })
 				}
 			}
 		case cg.KCell:
 			var v s2.Cell
 			if err = v.Decode(rd); err == nil {
 				res.Term = cg.U64T(uint64(v.ID()))
-				use = func() { useRegion(v); reencode(func(w *bytes.Buffer) error { return v.Encode(w) }) }
+				use = func() { useRegion(v); reencode(k, func(w *bytes.Buffer) error { return v.Encode(w) }) }
 			}
 		case cg.KCellUnion:
 			var v s2.CellUnion
@@ -117,7 +117,7 @@ func runOne(k cg.Kind, data []byte) (res result) {
 					at = "IsValid"
 					_ = v.IsValid()
 					useRegion(&v)
-					reencode(func(w *bytes.Buffer) error { return v.Encode(w) })
+					reencode(k, func(w *bytes.Buffer) error { return v.Encode(w) })
 				}
 			}
 		case cg.KPolyline:
@@ -130,7 +130,7 @@ func runOne(k cg.Kind, data []byte) (res result) {
 				use = func() {
 					useRegion(&v)
 					useShape(&v)
-					reencode(func(w *bytes.Buffer) error { return v.Encode(w) })
+					reencode(k, func(w *bytes.Buffer) error { return v.Encode(w) })
 				}
 			}
 		case cg.KLoop:
@@ -148,13 +148,15 @@ func runOne(k cg.Kind, data []byte) (res result) {
 						at = "Loop.ContainsPoint"
 						_ = v.ContainsPoint(p)
 					}
-					reencode(func(w *bytes.Buffer) error { return v.Encode(w) })
+					reencode(k, func(w *bytes.Buffer) error { return v.Encode(w) })
 				}
 			}
 		case cg.KPolygon:
 			v := new(s2.Polygon)
 			if err = v.Decode(rd); err == nil {
-				loops, _, _, _ := s2.VerifC09PolygonFields(v)
+				loops, _, _, nv := s2.VerifC09PolygonFields(v)
+				res.NV = int64(nv)
+				res.HasNV = true
 				if len(data) > 0 && data[0] == 4 {
 					ts := make([]string, len(loops))
 					for i, l := range loops {
@@ -188,7 +190,7 @@ func runOne(k cg.Kind, data []byte) (res result) {
 							_ = l.ContainsPoint(p)
 						}
 					}
-					reencode(func(w *bytes.Buffer) error { return v.Encode(w) })
+					reencode(k, func(w *bytes.Buffer) error { return v.Encode(w) })
 				}
 			}
 		}
@@ -202,6 +204,7 @@ func runOne(k cg.Kind, data []byte) (res result) {
 		return res
 	}
 	res.Use = "ok"
+	useNote = ""
 	func() {
 		defer func() {
 			if p := recover(); p != nil {
@@ -210,6 +213,7 @@ func runOne(k cg.Kind, data []byte) (res result) {
 		}()
 		use()
 	}()
+	res.Note = useNote
 	return res
 }
 
@@ -225,10 +229,50 @@ func nonFinite(vs []s2.Point) bool {
 	return false
 }
 
-func reencode(f func(w *bytes.Buffer) error) {
-	at = "Encode"
+// reencode: a decoded value must re-encode without panicking (an error is allowed), and the
+// re-encoding must decode again.
+func reencode(k cg.Kind, f func(w *bytes.Buffer) error) {
+	at = "Encode.panic"
 	var b bytes.Buffer
-	_ = f(&b)
+	if err := f(&b); err != nil {
+		return
+	}
+	at = "Encode.redecode.panic"
+	if err := decodeKind(k, b.Bytes()); err != nil {
+		useNote = "the re-encoding does not decode: " + err.Error()
+	}
+}
+
+var useNote string
+
+func decodeKind(k cg.Kind, data []byte) error {
+	rd := bytes.NewReader(data)
+	switch k {
+	case cg.KPoint:
+		var v s2.Point
+		return v.Decode(rd)
+	case cg.KCap:
+		var v s2.Cap
+		return v.Decode(rd)
+	case cg.KRect:
+		var v s2.Rect
+		return v.Decode(rd)
+	case cg.KCellID:
+		var v s2.CellID
+		return v.Decode(rd)
+	case cg.KCell:
+		var v s2.Cell
+		return v.Decode(rd)
+	case cg.KCellUnion:
+		var v s2.CellUnion
+		return v.Decode(rd)
+	case cg.KPolyline:
+		var v s2.Polyline
+		return v.Decode(rd)
+	case cg.KLoop:
+		return new(s2.Loop).Decode(rd)
+	}
+	return new(s2.Polygon).Decode(rd)
 }
 
 var probeCells = func() []s2.Cell {
